@@ -666,6 +666,10 @@ func rulesC06(c *Ctx) {
 	ruleFailureResult(c)
 	c.Rule("fresh-executor")
 	c01Self(c)
+	// "executions of the wrapped function in progress": a permit is held for as long as the function runs because the
+	// innermost wrapper returns only after the user function returned (it calls it on its own goroutine, once)
+	c.Rule("user-function")
+	c01Leaf(c)
 }
 
 func c06Capacity(c *Ctx) {
